@@ -92,4 +92,8 @@ def container(kind: str, items: list):
 
 
 def max_abs(t: torch.Tensor) -> float:
-    return float(t.abs().max()) if t.numel() else 0.0
+    """max |t| - and +inf when t contains a nan (`nan > tolerance` is False: a nan in a residual must never pass for 'small')."""
+    if not t.numel():
+        return 0.0
+    v = float(t.abs().max())
+    return float("inf") if v != v else v
